@@ -290,12 +290,15 @@ def build(ctx):
     ctx.attempt("fmt.sdf.to_bond_line/ensures/columns", ob_bond, fn=f_bondline)
 
     # whole text: Molecule.to_sdf_string -> parse_sdf_contents -> Molecule.from_sdf_dict, 2 atoms, all coordinates symbolic
-    def ob_sdf_text():
+    def ob_sdf_text(title=None):
         P = [[x, y, zc], reals("p", 3)]
         pre = pre_sdf + [z3.And(v > z(SDF_LO), v < z(SDF_HI)) for v in P[1]]
+        tsfx = "" if title is None else ("/title_empty" if title == "" else "/title_blank_padded")
 
         def thunk(I2, a, kw):
             m = mk_mol(I2, ["O", "Cl"], P)
+            if title is not None:
+                m.fields["properties"]["name"] = title
             text = I2.call(I2.getattr(m, "to_sdf_string"), [])
             recs = I2.call(I2.lookup_global(sdfmod, "parse_sdf_contents"), [text])
             if len(recs) != 1:
@@ -305,7 +308,7 @@ def build(ctx):
         res = I.explore(thunk, pre=pre)
         for k, r in enumerate(res):
             sfx = f"/path{k}" if len(res) > 1 else ""
-            ident = "molecule.Molecule.from_sdf_dict/ensures/roundtrip_2atoms" + sfx
+            ident = "molecule.Molecule.from_sdf_dict/ensures/roundtrip_2atoms" + tsfx + sfx
             cl = ("forall coordinates fitting 10.4f: from_sdf_dict(parse_sdf_contents(to_sdf_string(m))[0]) has the same elements in order and every "
                   "coordinate k equal to coordinate k of the original within 0.5e-4")
             if r.kind != "return":
@@ -321,8 +324,40 @@ def build(ctx):
                     for j in range(3):
                         d = to_real(pos.data[i, j]) - P[i][j]
                         goal.append(z3.And(d <= z(H4), d >= -z(H4)))
-            ctx.prove(ident, r.pc, conj(goal), clause=cl, replay=sdf_replay, fn=f_fromsdf)
+            ctx.prove(ident, r.pc, conj(goal), clause=cl, replay=sdf_replay if title is None else title_replay(title), fn=f_fromsdf)
+            last = text.segs[-1] if isinstance(text, SStr) else Lit(text)
+            ends = isinstance(last, Lit) and last.text.endswith("\nM  END\n$$$$\n")
+            ctx.prove("fmt.sdf.to_sdf_string/ensures/record_terminated" + tsfx + sfx, r.pc, z3.BoolVal(bool(ends)),
+                      clause="the record ends with the lines 'M  END' and '$$$$', each terminated by a newline (so written records can be concatenated into one file)",
+                      replay=multi_replay, fn=f_sdfstr)
+
+    def title_replay(title):
+        def replay(m):
+            from chmpy import Molecule, Element
+            mol = Molecule([Element["O"], Element["Cl"]], np.array([[0.5, 1.5, -2.5], [1.0, 2.0, 3.0]]), name=title)
+            try:
+                from chmpy.fmt.sdf import parse_sdf_contents
+                back = Molecule.from_sdf_dict(parse_sdf_contents(mol.to_sdf_string())[0])
+                ok = [e.atomic_number for e in back.elements] == [8, 17] and np.allclose(back.positions, mol.positions, atol=1e-4)
+                obs = {"elements": [str(e) for e in back.elements], "positions": np.asarray(back.positions).tolist()}
+            except Exception as e:  # noqa
+                ok, obs = False, {"exception": repr(e)[:200]}
+            return {"native_inputs": {"title": title, "symbols": ["O", "Cl"]}, "reproduced": not ok, "observed": obs}
+        return replay
+
+    def multi_replay(m):
+        from chmpy import Molecule, Element
+        from chmpy.fmt.sdf import parse_sdf_contents
+        mols = [Molecule([Element["O"], Element["H"]], np.array([[0.0, 0.0, 0.1 * k], [0.9, 0.0, 0.1 * k]])) for k in range(3)]
+        text = "".join(mm.to_sdf_string() for mm in mols)
+        try:
+            n = len(parse_sdf_contents(text))
+        except Exception as e:  # noqa
+            n = repr(e)[:100]
+        return {"native_inputs": "three written records concatenated", "reproduced": n != 3, "observed": {"records_read": n}}
     ctx.attempt("molecule.Molecule.from_sdf_dict/ensures/roundtrip_2atoms", ob_sdf_text, replay=sdf_replay, fn=f_fromsdf)
+    ctx.attempt("molecule.Molecule.from_sdf_dict/ensures/roundtrip_2atoms/title_empty", lambda: ob_sdf_text(""), replay=title_replay(""), fn=f_fromsdf)
+    ctx.attempt("molecule.Molecule.from_sdf_dict/ensures/roundtrip_2atoms/title_blank_padded", lambda: ob_sdf_text("  my mol "), replay=title_replay("  my mol "), fn=f_fromsdf)
 
     ground_and_bounded(ctx)
 
@@ -404,9 +439,10 @@ def ground_and_bounded(ctx):
         mols = []
         for k in range(nrec):
             n = int(rng.integers(1, 12))
-            mols.append(Molecule([Element[syms_all[int(j)]] for j in rng.integers(0, 30, size=n)], rng.uniform(-9, 9, (n, 3))))
+            kw = {} if k % 3 else {"name": ["", " padded title ", "x"][int(rng.integers(0, 3))]}
+            mols.append(Molecule([Element[syms_all[int(j)]] for j in rng.integers(0, 30, size=n)], rng.uniform(-9, 9, (n, 3)), **kw))
         try:
-            text = "".join(mm.to_sdf_string() + ("\n" if not mm.to_sdf_string().endswith("\n") else "") + ("$$$$\n" if "$$$$" not in mm.to_sdf_string() else "") for mm in mols)
+            text = "".join(mm.to_sdf_string() for mm in mols)
             d = tempfile.mkdtemp(prefix="c16m_")
             p = os.path.join(d, "multi.sdf")
             open(p, "w").write(text)
